@@ -124,9 +124,16 @@ CHECKS = {
                 "are checked in every state. Generated .rtdc files served "
                 "by the fake host: RTDC_HTTP equals RTDC_HDF5 (features, "
                 "metadata, logs, tables) for chunk sizes incl. a divisor of "
-                "the file length.",
-        "note": "requests/sockets replaced by an in-memory host (harness "
-                "process only); read(n) with n >= 0",
+                "the file length. The same search runs on dclab's S3File "
+                "(its own header parsing and range download) over a "
+                "stand-in for the boto3 object; S3File built the regular "
+                "way (boto3 session/resource) over an in-memory botocore "
+                "transport is read around the 2**18-byte chunk boundaries "
+                "and the end of 6 (8) objects, its availability probe is "
+                "checked, and RTDC_S3 equals RTDC_HDF5 on generated files.",
+        "note": "requests/sockets/botocore transport replaced by an "
+                "in-memory host (harness process only); read(n) with "
+                "n >= 0",
     },
     "C17": {
         "engine": "E1-explore",
@@ -291,11 +298,16 @@ CHECKS = {
                 "relative and dangling locations; remote definitions via "
                 "the in-memory HTTP host (remote -> file chain must stop, "
                 "unreachable remote => unavailable) and opening through "
-                "RTDC_HTTP with a spy proving that no local path is opened.",
+                "RTDC_HTTP with a spy proving that no local path is opened. "
+                "The same three situations (remote -> file chain, opening "
+                "through the network format, unreachable store) for S3 "
+                "basins / RTDC_S3 (boto3 over an in-memory botocore "
+                "transport) and DCOR basins / RTDC_DCOR (dcserv API v2 "
+                "answered by the in-memory host).",
         "note": "a referrer without run identifier is unconstrained; "
-                "graphs on more than 4 files, S3 and DCOR formats are not "
-                "enumerated (no network); basin definitions get distinct "
-                "names per edge",
+                "graphs on more than 6 files are not enumerated; S3 and "
+                "DCOR take part in the remote cases, not in the graph "
+                "sweep; basin definitions get distinct names per edge",
     },
     "C11": {
         "engine": "E3-enumerate",
